@@ -91,7 +91,14 @@ def step (st : State) (toks : List String) : State × String :=
       let (n', _) := onPurge n none
       ({ node := n' }, "hung")
     | .fail => let (n', o) := onPurge n (some []); ({ node := n' }, showOut o false)
-    | .written idxs => let (n', o) := onPurge n (some idxs); ({ node := n' }, showOut o false)
+    | .written idxs =>
+      -- the case file numbers the purged tombstones in ascending key order (the implementation hands them to storage
+      -- in hash-map order, the harness sorts them): translate to positions of the model's `purged` list
+      let purged := (OrSwot.purgeOldDeletes n.set).2
+      let sortedKeys := StoreDom.sortNat (purged.map (·.1))
+      let doneKeys := (sortedKeys.zipIdx.filter (fun p => idxs.contains p.2)).map (·.1)
+      let idxs' := (purged.zipIdx.filter (fun p => doneKeys.contains p.1.1)).map (·.2)
+      let (n', o) := onPurge n (some idxs'); ({ node := n' }, showOut o false)
     | .none => let (n', o) := onPurge n none; ({ node := n' }, showOut o false)
   | ["state"] => (st, stateStr n)
   | ["get", id] =>
